@@ -75,3 +75,8 @@ CHECKS['C15'] = ('exploration',
   'For every enumerated language the real language graph is compared with a reference (assets, super/sub links, subtype closure for every pair, per-asset associations, association lookup for every (field, field, type, type) quadruple in both orientations, exposed steps, step links equal to the statically typed targets, every link mirrored); every single reference replaced by an unknown name must be reported; every attack-graph edge over the C01 model space must be predicted by a language-graph link to a step owned by the target type or an ancestor.',
   'Trusted: reference typing rules (malc\'s). Dangling names in requires clauses / unused variables are outside the statement. Content of dependency chains is not compared.',
   'DESIGN.md 3/C15')
+CHECKS['C06'] = ('exploration',
+  'bounded-exhaustive enumeration of languages x construction attempts (types, field sizes 0..max+1, repeated assets, duplicate links, defense values), accepted iff allowed by the language',
+  'For every language of the CLS family (inherited / overridden / extended defenses with every TTC form, all 49 multiplicity form pairs, same-named associations over different type pairs) and the OPS languages: asset classes and defense properties with defaults, every defense value inside and outside [0,1] by constructor and assignment, association classes via signature lookup with their two fields, and per association class every construction attempt over every asset type (declared, subtype, supertype, sibling, unrelated), sizes up to max+1, repeated assets and duplicate links; an attempt must be accepted exactly when the language allows it and a rejected attempt must leave the model unchanged.',
+  'Trusted: python_jsonschema_objects validation (checked end to end through what maltoolbox builds from it). Minimum multiplicities are not demanded.',
+  'DESIGN.md 3/C06')
